@@ -12,7 +12,7 @@ class Exam:
     __slots__ = ('lay', 'ok', 'exc', 'out', 'labels_true', 'labels_reported', 'per_item', 'layout_problem', 'lines')
 
 
-def examine(asm, items, compress, seed=0, nregs=4, judge=True, lines=None, eol='\n', preseed=None):
+def examine(asm, items, compress, seed=0, nregs=4, judge=True, lines=None, eol='\n', preseed=None, extern=None):
     ex = Exam()
     ex.lines = lines if lines is not None else P.render(items)
     lay = monitors.layout(asm, ex.lines, compress, eol=eol, preseed=preseed)
@@ -33,6 +33,7 @@ def examine(asm, items, compress, seed=0, nregs=4, judge=True, lines=None, eol='
     if not judge:
         return ex
     consts = {it['name']: it['value'] for it in items if it['k'] == 'const' and 'labexpr' not in it}
+    consts.update(extern or {})        # symbols the caller supplied in the label table and the program does not define: absolute
     for it in items:
         if it['k'] == 'const' and 'labexpr' in it:
             # a constant defined from labels (refused today): if a build accepts it, it means the value over the final offsets
